@@ -797,3 +797,51 @@ Proof.
 Qed.
 
 End AddOne.
+
+(* ------------------------------------------------------------------ the whole table *)
+
+Lemma add_entries_inv : forall rest done t t',
+  WF t -> Inv done [] t ->
+  add_entries true t (length done) rest = AOk t' ->
+  WF t' /\ Inv (done ++ rest) [] t'.
+Proof.
+  induction rest as [|e r IH]; intros done t t' Hwf Hinv Hadd; simpl in Hadd.
+  - inversion Hadd; subst. rewrite app_nil_r. auto.
+  - unfold tree_add in Hadd.
+    destruct (add_node true (S (S (slen (ce_path e)))) t (ce_path e) [] false (put_value (ce_bt e) (length done)))
+      as [t1| |] eqn:E1; try discriminate.
+    destruct (add_node_inv done e (ce_bt e) (S (S (slen (ce_path e)))) t (ce_path e) [] false [] t1) as (W1 & I1 & _); auto.
+    replace (S (length done)) with (length (done ++ [e])) in Hadd by (rewrite app_length; simpl; lia).
+    destruct (IH (done ++ [e]) t1 t' W1 I1 Hadd) as (W2 & I2).
+    rewrite <- app_assoc in I2. auto.
+Qed.
+
+Lemma loaded_inv fx4 ds es t : load true fx4 ds = Loaded es t -> WF t /\ Inv es [] t.
+Proof.
+  unfold load. destruct (create_rules fx4 ds) as [cs|]; [|discriminate].
+  destruct (add_entries true empty_tree 0 (entries_of 0 cs)) as [t0| |] eqn:E; try discriminate.
+  intro H. inversion H; subst. clear H.
+  apply (add_entries_inv (entries_of 0 cs) [] empty_tree t); [apply WF_leaf | apply Inv_leaf | exact E].
+Qed.
+
+(* ------------------------------------------------------------------ from positions of nodes to entries *)
+
+Fixpoint flat (pi : list piece) : list fpiece :=
+  match pi with
+  | [] => []
+  | PS s :: r => fcs s ++ flat r
+  | PW :: r => FW :: flat r
+  | PC :: r => FX :: flat r
+  end.
+
+Lemma at_pos_entry es : forall t pi node, at_pos t pi node ->
+  forall pos v, Inv es pos t -> In v (t_values node) -> entry_ok es (pos ++ flat pi) (t_keys node) v.
+Proof.
+  intros t pi node H. induction H as [t|t c child pi n Hin Hat IH|t w pi n Hw Hat IH|t c Hc];
+    intros pos v Hinv Hv; inversion Hinv as [pos0 n0 Hvs Hk0 Hst Hww Hcc]; subst pos0 n0.
+  - simpl. rewrite app_nil_r. auto.
+  - simpl. rewrite app_assoc. apply IH; [|assumption].
+    rewrite Forall_forall in Hst. apply (Hst _ Hin).
+  - simpl. change (FW :: flat pi) with ([FW] ++ flat pi). rewrite app_assoc. apply IH; [|assumption]. auto.
+  - simpl. eauto.
+Qed.
